@@ -9,9 +9,12 @@ import (
 	"hash/fnv"
 	"os"
 	"runtime/debug"
+	"runtime/metrics"
 	"sort"
 	"strconv"
 	"strings"
+	"sync"
+	"sync/atomic"
 	"time"
 
 	"github.com/bufbuild/protocompile/internal/zzverif/coop"
@@ -47,6 +50,76 @@ type Result struct {
 	Rule        string           `json:"rule,omitempty"`
 	Assumptions []string         `json:"assumptions,omitempty"`
 	WallS       float64          `json:"wall_s"`
+}
+
+// watchdog state: the case that is executing right now and a progress counter.
+// A single execution normally takes well under a millisecond; code that spins
+// or allocates without ever reaching a scheduling point cannot be seen by the
+// scheduler, so a coarse watchdog turns it into a reported violation instead of
+// a killed worker.
+var (
+	wdMu       sync.Mutex
+	wdCase     string
+	wdProgress atomic.Int64
+	wdLast     atomic.Int64 // index of the last NextN case (cheap path, no string)
+)
+
+// Running names the case that is about to execute (for the watchdog).
+func Running(caseID string) {
+	wdMu.Lock()
+	wdCase = caseID
+	wdMu.Unlock()
+	wdProgress.Add(1)
+}
+
+func (h *H) watchdog(stall time.Duration, heapLimit uint64) {
+	last := wdProgress.Load()
+	lastChange := time.Now()
+	sample := []metrics.Sample{{Name: "/memory/classes/heap/objects:bytes"}}
+	for {
+		time.Sleep(250 * time.Millisecond)
+		cur := wdProgress.Load()
+		if cur != last {
+			last, lastChange = cur, time.Now()
+		}
+		metrics.Read(sample)
+		heap := sample[0].Value.Uint64()
+		why := ""
+		if heap > heapLimit {
+			why = fmt.Sprintf("heap grew past %d MiB inside a single execution", heapLimit>>20)
+		} else if cur > 0 && time.Since(lastChange) > stall {
+			why = fmt.Sprintf("a single execution did not finish within %s", stall)
+		}
+		if why == "" {
+			continue
+		}
+		wdMu.Lock()
+		c := wdCase
+		wdMu.Unlock()
+		if c == "" {
+			c = CaseID(wdLast.Load())
+		}
+		debug.SetGCPercent(-1)
+		h.Violations = append(h.Violations, Violation{Sig: "runaway-execution", Case: c, Msg: "runaway execution (no scheduling point reached): " + why})
+		if h.VioCounts == nil {
+			h.VioCounts = map[string]int64{}
+		}
+		h.VioCounts["runaway-execution"]++
+		h.Exhaustive = false
+		h.Caps = append(h.Caps, "stopped by the watchdog")
+		h.WallS = time.Since(h.started).Seconds()
+		b, _ := json.Marshal(&h.Result)
+		if h.out == "" {
+			os.Stdout.Write(b)
+		} else {
+			os.WriteFile(h.out, b, 0o644)
+		}
+		if h.Replay != "" {
+			fmt.Printf("REPRODUCED sig=runaway-execution case=%s\n  %s\n", c, why)
+			os.Exit(1)
+		}
+		os.Exit(0)
+	}
 }
 
 type H struct {
@@ -92,6 +165,7 @@ func Main(prop string, f func(h *H)) {
 	h.Extra = map[string]any{}
 	h.Counters = map[string]int64{}
 	debug.SetGCPercent(400)
+	go h.watchdog(60*time.Second, 6<<30)
 	func() {
 		defer func() {
 			if p := recover(); p != nil {
@@ -166,6 +240,7 @@ func (h *H) Next(family string) (id string, run bool) {
 	}
 	id = family + "#" + strconv.FormatInt(i, 10)
 	h.curCase = id
+	Running(id)
 	return id, true
 }
 
@@ -175,9 +250,18 @@ func (h *H) NextN() (idx int64, run bool) {
 	i := h.next
 	h.next++
 	if h.Replay != "" {
-		return i, h.Replay == "#"+strconv.FormatInt(i, 10)
+		if h.Replay == "#"+strconv.FormatInt(i, 10) {
+			Running(h.Replay)
+			return i, true
+		}
+		return i, false
 	}
-	return i, int(i%int64(h.NShards)) == h.Shard
+	if int(i%int64(h.NShards)) == h.Shard {
+		wdProgress.Add(1)
+		wdLast.Store(i)
+		return i, true
+	}
+	return i, false
 }
 
 func CaseID(idx int64) string { return "#" + strconv.FormatInt(idx, 10) }
@@ -264,6 +348,7 @@ func (h *H) Explore(sc Scn) *tape.Stats {
 			return nil
 		}
 		tp := parseTape(strings.TrimPrefix(h.Replay, sc.Name+"|"))
+		Running(h.Replay)
 		r := tape.Replay(sc.Body, tp)
 		h.Eval(1)
 		if r.Diverged != "" {
@@ -278,6 +363,7 @@ func (h *H) Explore(sc Scn) *tape.Stats {
 	idx := scnCounter
 	scnCounter++
 	ex := &tape.Explorer{Bounds: sc.Bounds, Body: sc.Body, Prune: sc.Prune, MaxExecs: sc.MaxExec}
+	ex.OnStart = func(prefix []int) { Running(sc.Name + "|" + fmtTape(prefix)) }
 	if sc.Split > 0 {
 		ex.Shard, ex.NShards, ex.SplitDepth = h.Shard, h.NShards, sc.Split
 	} else if idx%h.NShards != h.Shard {
